@@ -27,6 +27,7 @@ type World struct {
 	MapValueFact   func(e *FuncEnc, mt *types.Map, val, has string) string
 	ElemFact       func(e *FuncEnc, elem types.Type, val string) string
 	InvokeSummary  func(e *FuncEnc, cc *ssa.CallCommon) bool
+	LoopSummary    func(e *FuncEnc, li *loopInfo) bool
 	GlobalFact     func(e *FuncEnc, g *ssa.Global, val string) string
 	DynResultFact  func(e *FuncEnc, name string, results []string, rts []types.Type) string
 	DynamicPolicy  func(e *FuncEnc, in ssa.Instruction, name string) CallKind
@@ -111,8 +112,31 @@ func (w *World) ContractFor(f *ssa.Function) *Contract {
 		if c, ok := w.Contracts[o.String()]; ok {
 			return c
 		}
+		if c, ok := w.Contracts[stripTypeArgs(o.String())]; ok {
+			return c
+		}
 	}
 	return nil
+}
+
+// stripTypeArgs: "(emitted.Maybe[T]).Get" -> "(emitted.Maybe).Get"
+func stripTypeArgs(s string) string {
+	var b strings.Builder
+	depth := 0
+	for _, r := range s {
+		switch r {
+		case '[':
+			depth++
+			continue
+		case ']':
+			depth--
+			continue
+		}
+		if depth == 0 {
+			b.WriteRune(r)
+		}
+	}
+	return b.String()
 }
 
 // Functions returns all module functions (including anonymous ones and generic
